@@ -393,6 +393,11 @@ def vw_parser(repo, chk):
                 chk.unsure('C16.3d', 'R15', site, ast.unparse(expr)[:140], 'the returned row is built step by step / in a form outside the vocabulary: cannot be compared with [label] + namespace cells')
             continue
         lt = term_of(fn, expr.left.elts[0], roles, inline=False)
+        # `.rsplit(' ', n)[0]` is everything before the LAST blank(s), not the first token
+        if lt not in label_ok and any(isinstance(x, tuple) and len(x) >= 3 and x[0] == 'call' and x[1][0] == 'attr' and x[1][2] == 'rsplit' for x in walk_term(lt)):
+            chk.bad('C16.3d', 'R15', site, ast.unparse(expr.left.elts[0])[:100], 'the label is cut off at the LAST blank of the section before the first "|" (rsplit): when an importance weight, a base or a tag follows the label '
+                    "('1 2.0 |a x') the label cell holds '1 2.0' instead of its first token")
+            continue
         chk.expect_term(lt, label_ok, 'C16.3d', 'R15', site, ast.unparse(expr.left.elts[0])[:100],
                         'label is the first space-token of the section before the first "|"', f'label must be the first token of the first section; found {show(lt)[:120]}')
         ct = unkind(term_of(fn, expr.right, roles, inline=False))
